@@ -380,4 +380,488 @@ theorem visited_perm {nb d : Nat} (hnb : 0 < nb) (hd : d < 2 ^ nb) :
       · exact Or.inr (Or.inr (mem_zerosFrom.2 ⟨hpos, by omega, hb⟩))
 
 
+
+/-! ## Bucket operations and the bucket invariant -/
+
+
+theorem entry_cases (K : Nat) (b : Bucket) (key rnd : Nat) :
+    (∃ i p, entry K b key rnd = (b, .occupied i) ∧ b[i]? = some (.real p) ∧ p.key = key) ∨
+    ((∀ s ∈ b, Slot.matchesKey key s = false) ∧
+      ((b.length < K ∧ entry K b key rnd = (b ++ [.junk rnd], .vacant b.length)) ∨
+       (K ≤ b.length ∧ ∃ i s, entry K b key rnd = (b, .vacant i) ∧ b[i]? = some s ∧ s.replaceable = true) ∨
+       entry K b key rnd = (b, .noSlot))) := by
+  unfold entry
+  cases h : b.findIdx? (Slot.matchesKey key) with
+  | some i =>
+    left
+    obtain ⟨hi, hm, _⟩ := List.findIdx?_eq_some_iff_getElem.1 h
+    cases hs : b[i] with
+    | junk k => simp [hs, Slot.matchesKey] at hm
+    | real p =>
+      refine ⟨i, p, rfl, ?_, ?_⟩
+      · rw [List.getElem?_eq_getElem hi, hs]
+      · simpa [hs, Slot.matchesKey] using hm
+  | none =>
+    right
+    refine ⟨List.findIdx?_eq_none_iff.1 h, ?_⟩
+    by_cases hlen : b.length < K
+    · left; simp [hlen]
+    · right
+      simp only [hlen, if_false]
+      cases h2 : b.findIdx? Slot.replaceable with
+      | some i =>
+        left
+        obtain ⟨hi, hm, _⟩ := List.findIdx?_eq_some_iff_getElem.1 h2
+        exact ⟨by omega, i, b[i], rfl, List.getElem?_eq_getElem hi, hm⟩
+      | none => right; rfl
+
+theorem modify_eq_set {α} (l : List α) (i : Nat) (g : α → α) (s : α) (h : l[i]? = some s) :
+    l.modify i g = l.set i (g s) := by
+  apply List.ext_getElem?
+  intro j
+  rw [List.getElem?_modify, List.getElem?_set]
+  by_cases hij : i = j
+  · subst hij
+    have hi : i < l.length := by
+      rcases Nat.lt_or_ge i l.length with h' | h'
+      · exact h'
+      · rw [List.getElem?_eq_none h'] at h; simp at h
+    have hs : l[i] = s := by rw [List.getElem?_eq_getElem hi] at h; exact Option.some.inj h
+    simp [hi, hs]
+  · simp [hij]
+
+/-- What one table operation can do to the selected bucket (`key` = the key operated on). -/
+inductive BStep (K key : Nat) : Bucket → Bucket → Prop
+  | refl (b) : BStep K key b b
+  | push (b rnd) : b.length < K → BStep K key b (b ++ [.junk rnd])
+  | pushReal (b q) : b.length < K → (∀ s ∈ b, Slot.matchesKey key s = false) → q.key = key →
+      BStep K key b (b ++ [.real q])
+  | update (b i p q) : b[i]? = some (.real p) → q.key = p.key → q.peer = p.peer →
+      BStep K key b (b.set i (.real q))
+  | replace (b i s q) : b[i]? = some s → s.replaceable = true →
+      (∀ s ∈ b, Slot.matchesKey key s = false) → q.key = key → BStep K key b (b.set i (.real q))
+
+theorem bstep_occupied (K key : Nat) (b : Bucket) (i : Nat) (p : Peer) (f : Peer → Peer)
+    (h : b[i]? = some (.real p)) (hk : ∀ p, (f p).key = p.key) (hp : ∀ p, (f p).peer = p.peer) :
+    BStep K key b (b.modify i (updateReal f)) := by
+  rw [modify_eq_set b i _ _ h]
+  exact BStep.update b i p (f p) h (hk p) (hp p)
+
+theorem bstep_addKnownPeer (K : Nat) (b : Bucket) (peer key naddrs : Nat) (conn : Conn) (rnd : Nat) :
+    BStep K key b (addKnownPeer K b peer key naddrs conn rnd) := by
+  unfold addKnownPeer
+  rcases entry_cases K b key rnd with ⟨i, p, he, hb, hk⟩ | ⟨hno, ⟨hlen, he⟩ | ⟨hlen, i, s, he, hs, hr⟩ | he⟩
+  · rw [he]; exact bstep_occupied K key b i p _ hb (fun _ => rfl) (fun _ => rfl)
+  · rw [he]
+    simp only [Bucket.insert]
+    rw [List.set_append_right _ _ (Nat.le_refl _)]
+    simp only [Nat.sub_self, List.set_cons_zero]
+    exact BStep.pushReal b _ hlen hno rfl
+  · rw [he]
+    simp only [Bucket.insert]
+    exact BStep.replace b i s _ hs hr hno rfl
+  · rw [he]; exact BStep.refl b
+
+theorem bstep_onConnectionEstablished (K : Nat) (b : Bucket) (key : Nat) (dialer : Bool) (rnd : Nat) :
+    BStep K key b (onConnectionEstablished K b key dialer rnd) := by
+  unfold onConnectionEstablished
+  rcases entry_cases K b key rnd with ⟨i, p, he, hb, hk⟩ | ⟨hno, ⟨hlen, he⟩ | ⟨hlen, i, s, he, hs, hr⟩ | he⟩
+  · rw [he]; exact bstep_occupied K key b i p _ hb (fun _ => rfl) (fun _ => rfl)
+  · rw [he]; exact BStep.push b rnd hlen
+  · rw [he]; exact BStep.refl b
+  · rw [he]; exact BStep.refl b
+
+theorem bstep_onDialFailure (K : Nat) (b : Bucket) (key naddrs rnd : Nat) :
+    BStep K key b (onDialFailure K b key naddrs rnd) := by
+  unfold onDialFailure
+  rcases entry_cases K b key rnd with ⟨i, p, he, hb, hk⟩ | ⟨hno, ⟨hlen, he⟩ | ⟨hlen, i, s, he, hs, hr⟩ | he⟩
+  · rw [he]; exact bstep_occupied K key b i p _ hb (fun _ => rfl) (fun _ => rfl)
+  · rw [he]; exact BStep.push b rnd hlen
+  · rw [he]; exact BStep.refl b
+  · rw [he]; exact BStep.refl b
+
+theorem bstep_onDisconnected (K : Nat) (b : Bucket) (key rnd : Nat) :
+    BStep K key b (onDisconnected K b key rnd) := by
+  unfold onDisconnected
+  rcases entry_cases K b key rnd with ⟨i, p, he, hb, hk⟩ | ⟨hno, ⟨hlen, he⟩ | ⟨hlen, i, s, he, hs, hr⟩ | he⟩
+  · rw [he]; exact bstep_occupied K key b i p _ hb (fun _ => rfl) (fun _ => rfl)
+  · rw [he]; exact BStep.push b rnd hlen
+  · rw [he]; exact BStep.refl b
+  · rw [he]; exact BStep.refl b
+
+theorem bstep_entry (K : Nat) (b : Bucket) (key rnd : Nat) :
+    BStep K key b (entry K b key rnd).1 := by
+  rcases entry_cases K b key rnd with ⟨i, p, he, hb, hk⟩ | ⟨hno, ⟨hlen, he⟩ | ⟨hlen, i, s, he, hs, hr⟩ | he⟩
+  · rw [he]; exact BStep.refl b
+  · rw [he]; exact BStep.push b rnd hlen
+  · rw [he]; exact BStep.refl b
+  · rw [he]; exact BStep.refl b
+
+/-- Two nodes do not hold the same key. -/
+def DistinctKeys (s t : Slot) : Prop := ∀ p q, s = .real p → t = .real q → p.key ≠ q.key
+
+/-- Invariant of the bucket with index `idx` of a table with local key `lk`. -/
+structure BInv (K lk idx : Nat) (b : Bucket) : Prop where
+  len : b.length ≤ K
+  place : ∀ p, Slot.real p ∈ b → bucketIndex (distance lk p.key) = some idx
+  keys : b.Pairwise DistinctKeys
+
+theorem binv_nil (K lk idx : Nat) : BInv K lk idx [] :=
+  ⟨Nat.zero_le _, fun _ h => by simp at h, List.Pairwise.nil⟩
+
+theorem pairwise_set_of {R : Slot → Slot → Prop} (b : Bucket) (i : Nat) (x : Slot)
+    (hb : b.Pairwise R)
+    (h1 : ∀ j (hj : j < b.length), j ≠ i → R x b[j] ∧ R b[j] x) : (b.set i x).Pairwise R := by
+  rw [List.pairwise_iff_getElem] at hb ⊢
+  intro a c ha hc hac
+  rw [List.length_set] at ha hc
+  rw [List.getElem_set, List.getElem_set]
+  by_cases hia : i = a
+  · subst hia
+    have : ¬ i = c := by omega
+    simp only [this, if_true, if_false]
+    exact (h1 c hc (by omega)).1
+  · by_cases hic : i = c
+    · subst hic
+      simp only [hia, if_true, if_false]
+      exact (h1 a ha (by omega)).2
+    · simp only [hia, hic, if_false]
+      exact hb a c ha hc hac
+
+theorem not_matches_of {key : Nat} {b : Bucket} (hno : ∀ s ∈ b, Slot.matchesKey key s = false)
+    {p : Peer} (hp : Slot.real p ∈ b) : p.key ≠ key := by
+  have := hno _ hp
+  simpa [Slot.matchesKey] using this
+
+theorem binv_step {K lk idx key : Nat} {b b' : Bucket} (hidx : bucketIndex (distance lk key) = some idx)
+    (hs : BStep K key b b') (h : BInv K lk idx b) : BInv K lk idx b' := by
+  cases hs with
+  | refl => exact h
+  | push rnd hlen =>
+    refine ⟨by simp; omega, ?_, ?_⟩
+    · intro p hp
+      simp only [List.mem_append, List.mem_singleton] at hp
+      rcases hp with hp | hp
+      · exact h.place p hp
+      · cases hp
+    · refine List.pairwise_append.2 ⟨h.keys, List.pairwise_singleton _ _, ?_⟩
+      intro s _ t ht p q _ hq
+      simp only [List.mem_singleton] at ht
+      subst ht; cases hq
+  | pushReal q hlen hno hq =>
+    refine ⟨by simp; omega, ?_, ?_⟩
+    · intro p hp
+      simp only [List.mem_append, List.mem_singleton] at hp
+      rcases hp with hp | hp
+      · exact h.place p hp
+      · cases hp; rw [hq]; exact hidx
+    · refine List.pairwise_append.2 ⟨h.keys, List.pairwise_singleton _ _, ?_⟩
+      intro s hs t ht p q' hp hq'
+      simp only [List.mem_singleton] at ht
+      subst ht; cases hq'; subst hp
+      rw [hq]; exact not_matches_of hno hs
+  | update i p q hi hk hp =>
+    have hil : i < b.length := by
+      rcases Nat.lt_or_ge i b.length with h' | h'
+      · exact h'
+      · rw [List.getElem?_eq_none h'] at hi; simp at hi
+    have hbi : b[i] = .real p := by rw [List.getElem?_eq_getElem hil] at hi; exact Option.some.inj hi
+    have hpm : Slot.real p ∈ b := hbi ▸ List.getElem_mem hil
+    refine ⟨by rw [List.length_set]; exact h.len, ?_, ?_⟩
+    · intro x hx
+      rcases List.mem_or_eq_of_mem_set hx with hx | hx
+      · exact h.place x hx
+      · cases hx; rw [hk]; exact h.place p hpm
+    · have hk' := List.pairwise_iff_getElem.1 h.keys
+      refine pairwise_set_of b i _ h.keys ?_
+      intro j hj hji
+      constructor
+      · intro x y hx hy
+        cases hx
+        rw [hk]
+        rcases Nat.lt_or_gt_of_ne hji with hlt | hgt
+        · exact fun e => hk' j i hj hil hlt y p hy hbi e.symm
+        · exact hk' i j hil hj hgt p y hbi hy
+      · intro x y hx hy
+        cases hy
+        rw [hk]
+        rcases Nat.lt_or_gt_of_ne hji with hlt | hgt
+        · exact hk' j i hj hil hlt x p hx hbi
+        · exact fun e => hk' i j hil hj hgt p x hbi hx e.symm
+  | replace i s q hi hr hno hq =>
+    refine ⟨by rw [List.length_set]; exact h.len, ?_, ?_⟩
+    · intro x hx
+      rcases List.mem_or_eq_of_mem_set hx with hx | hx
+      · exact h.place x hx
+      · cases hx; rw [hq]; exact hidx
+    · refine pairwise_set_of b i _ h.keys ?_
+      intro j hj hji
+      constructor
+      · intro x y hx hy
+        cases hx
+        rw [hq]
+        exact (not_matches_of hno (hy ▸ List.getElem_mem hj)).symm
+      · intro x y hx hy
+        cases hy
+        rw [hq]
+        exact not_matches_of hno (hx ▸ List.getElem_mem hj)
+
+/-- A node whose connection is `Connected`/`CanConnect` keeps its slot and identity. -/
+theorem protected_step {K key : Nat} {b b' : Bucket} (hs : BStep K key b b') {j : Nat} {p : Peer}
+    (hj : b[j]? = some (.real p)) (hc : p.conn = .connected ∨ p.conn = .canConnect) :
+    ∃ p', b'[j]? = some (.real p') ∧ p'.peer = p.peer ∧ p'.key = p.key := by
+  have hjl : j < b.length := by
+    rcases Nat.lt_or_ge j b.length with h' | h'
+    · exact h'
+    · rw [List.getElem?_eq_none h'] at hj; simp at hj
+  cases hs with
+  | refl => exact ⟨p, hj, rfl, rfl⟩
+  | push rnd hlen => exact ⟨p, by rw [List.getElem?_append_left hjl]; exact hj, rfl, rfl⟩
+  | pushReal q hlen hno hq => exact ⟨p, by rw [List.getElem?_append_left hjl]; exact hj, rfl, rfl⟩
+  | update i p0 q hi hk hp =>
+    by_cases hij : i = j
+    · subst hij
+      rw [hj] at hi; cases hi
+      exact ⟨q, by rw [List.getElem?_set]; simp [hjl], hp, hk⟩
+    · exact ⟨p, by rw [List.getElem?_set]; simp [hij, hj], rfl, rfl⟩
+  | replace i s q hi hr hno hq =>
+    by_cases hij : i = j
+    · subst hij
+      rw [hj] at hi; cases hi
+      rcases hc with hc | hc <;> simp [Slot.replaceable, Slot.conn, hc] at hr
+    · exact ⟨p, by rw [List.getElem?_set]; simp [hij, hj], rfl, rfl⟩
+
+
+/-! ## Table invariant -/
+
+def TInv (K nb : Nat) (t : Table) : Prop :=
+  t.buckets.length = nb ∧ ∀ i, BInv K t.localKey i (t.buckets.getD i [])
+
+theorem getD_modify (l : List Bucket) (i j : Nat) (f : Bucket → Bucket) :
+    (l.modify i f).getD j [] = if i = j ∧ j < l.length then f (l.getD j []) else l.getD j [] := by
+  simp only [List.getD_eq_getElem?_getD, List.getElem?_modify]
+  by_cases hj : j < l.length
+  · rw [List.getElem?_eq_getElem hj]
+    by_cases hij : i = j <;> simp [hij, hj]
+  · rw [List.getElem?_eq_none (by omega)]
+    simp [hj]
+
+theorem tinv_new (K nb lk : Nat) : TInv K nb (Table.new nb lk) := by
+  refine ⟨by simp [Table.new], fun i => ?_⟩
+  have : (Table.new nb lk).buckets.getD i [] = [] := by
+    simp only [Table.new, List.getD_eq_getElem?_getD, List.getElem?_replicate]
+    split <;> rfl
+  rw [this]; exact binv_nil _ _ _
+
+theorem atBucket_localKey (t : Table) (key : Nat) (f : Bucket → Bucket) :
+    (t.atBucket key f).localKey = t.localKey := by
+  unfold Table.atBucket; split <;> rfl
+
+theorem tinv_atBucket {K nb : Nat} {t : Table} (key : Nat) (f : Bucket → Bucket)
+    (hf : ∀ b, BStep K key b (f b)) (h : TInv K nb t) : TInv K nb (t.atBucket key f) := by
+  unfold Table.atBucket
+  split
+  · exact h
+  · rename_i i hi
+    refine ⟨by simp [h.1], fun j => ?_⟩
+    show BInv K t.localKey j ((t.buckets.modify i f).getD j [])
+    rw [getD_modify]
+    split
+    · rename_i hij
+      rw [← hij.1]
+      exact binv_step hi (hf _) (hij.1 ▸ h.2 j)
+    · exact h.2 j
+
+theorem step_spec (K : Nat) (t : Table) (op : Op) :
+    step K t op = t ∨ ∃ f, (∀ b, BStep K op.key b (f b)) ∧ step K t op = t.atBucket op.key f := by
+  cases op with
+  | add peer key naddrs conn rnd =>
+    simp only [step, Table.addKnownPeer, Op.key]
+    split
+    · exact Or.inl rfl
+    · exact Or.inr ⟨_, fun b => bstep_addKnownPeer K b peer key naddrs conn rnd, rfl⟩
+  | connected key dialer rnd =>
+    exact Or.inr ⟨_, fun b => bstep_onConnectionEstablished K b key dialer rnd, rfl⟩
+  | dialFailure key naddrs rnd =>
+    exact Or.inr ⟨_, fun b => bstep_onDialFailure K b key naddrs rnd, rfl⟩
+  | disconnected key rnd =>
+    exact Or.inr ⟨_, fun b => bstep_onDisconnected K b key rnd, rfl⟩
+  | entry key rnd =>
+    simp only [step, Table.entry, Op.key]
+    split
+    · exact Or.inl rfl
+    · exact Or.inr ⟨_, fun b => bstep_entry K b key rnd, rfl⟩
+
+theorem tinv_step {K nb : Nat} {t : Table} (op : Op) (h : TInv K nb t) : TInv K nb (step K t op) := by
+  rcases step_spec K t op with he | ⟨f, hf, he⟩
+  · rw [he]; exact h
+  · rw [he]; exact tinv_atBucket _ f hf h
+
+theorem step_localKey (K : Nat) (t : Table) (op : Op) : (step K t op).localKey = t.localKey := by
+  rcases step_spec K t op with he | ⟨f, hf, he⟩
+  · rw [he]
+  · rw [he]; exact atBucket_localKey ..
+
+theorem foldl_tinv {K nb : Nat} (ops : List Op) : ∀ {t : Table}, TInv K nb t → TInv K nb (ops.foldl (step K) t) := by
+  induction ops with
+  | nil => intro t h; exact h
+  | cons op ops ih => intro t h; exact ih (tinv_step op h)
+
+theorem foldl_localKey (K : Nat) (ops : List Op) : ∀ (t : Table), (ops.foldl (step K) t).localKey = t.localKey := by
+  induction ops with
+  | nil => intro t; rfl
+  | cons op ops ih => intro t; rw [List.foldl_cons, ih, step_localKey]
+
+theorem run_tinv (K nb lk : Nat) (ops : List Op) : TInv K nb (run K nb lk ops) :=
+  foldl_tinv ops (tinv_new K nb lk)
+
+theorem run_localKey (K nb lk : Nat) (ops : List Op) : (run K nb lk ops).localKey = lk :=
+  foldl_localKey K ops _
+
+theorem step_protected (K : Nat) (t : Table) (op : Op) {bi si : Nat} {p : Peer}
+    (h : (t.buckets.getD bi [])[si]? = some (.real p)) (hc : p.conn = .connected ∨ p.conn = .canConnect) :
+    ∃ p', ((step K t op).buckets.getD bi [])[si]? = some (.real p') ∧ p'.peer = p.peer ∧ p'.key = p.key := by
+  rcases step_spec K t op with he | ⟨f, hf, he⟩
+  · rw [he]; exact ⟨p, h, rfl, rfl⟩
+  · rw [he]
+    unfold Table.atBucket
+    split
+    · exact ⟨p, h, rfl, rfl⟩
+    · rename_i i hi
+      show ∃ p', ((t.buckets.modify i f).getD bi [])[si]? = _ ∧ _
+      rw [getD_modify]
+      split
+      · exact protected_step (hf _) h hc
+      · exact ⟨p, h, rfl, rfl⟩
+
+/-- Every stored node is in range, in its bucket. -/
+theorem mem_bucket_of_tinv {K nb : Nat} {t : Table} (h : TInv K nb t) {i : Nat} {p : Peer}
+    (hp : Slot.real p ∈ t.buckets.getD i []) : bucketIndex (distance t.localKey p.key) = some i :=
+  (h.2 i).place p hp
+
+
+/-! ## `closest` -/
+
+theorem xor_swap (l p t : Nat) : (l ^^^ p) ^^^ (l ^^^ t) = t ^^^ p := by
+  apply Nat.eq_of_testBit_eq
+  intro i
+  simp only [Nat.testBit_xor]
+  cases l.testBit i <;> cases p.testBit i <;> cases t.testBit i <;> rfl
+
+/-- Strictly closer to the target. -/
+def Closer (target : Nat) (a b : Slot) : Prop := distance target a.key < distance target b.key
+
+theorem distinctKeys_symm {s t : Slot} (h : DistinctKeys s t) : DistinctKeys t s :=
+  fun p q hp hq e => h q p hq hp e.symm
+
+theorem real_of_hasAddr {s : Slot} (h : s.hasAddr = true) : ∃ p, s = .real p := by
+  cases s with
+  | junk k => simp [Slot.hasAddr] at h
+  | real p => exact ⟨p, rfl⟩
+
+theorem mem_closestIter {target : Nat} {b : Bucket} {s : Slot} :
+    s ∈ closestIter target b ↔ s ∈ b ∧ s.hasAddr = true := by
+  unfold closestIter
+  rw [List.mem_filter, (List.mergeSort_perm b _).mem_iff]
+
+theorem closestIter_perm (target : Nat) (b : Bucket) :
+    (closestIter target b).Perm (b.filter Slot.hasAddr) :=
+  (List.mergeSort_perm b _).filter _
+
+/-- Within one bucket: strictly sorted by distance to the target. -/
+theorem closestIter_sorted (target : Nat) {b : Bucket} (hk : b.Pairwise DistinctKeys) :
+    (closestIter target b).Pairwise (Closer target) := by
+  unfold closestIter
+  have h1 := List.pairwise_mergeSort
+    (le := fun x y : Slot => decide (distance target x.key ≤ distance target y.key))
+    (by intro a b c; simp only [decide_eq_true_eq]; exact Nat.le_trans)
+    (by intro a b; simp only [Bool.or_eq_true, decide_eq_true_eq]; exact Nat.le_total _ _) b
+  have h2 := (List.Perm.pairwise_iff (fun {x y} => @distinctKeys_symm x y) (List.mergeSort_perm b
+    (fun x y : Slot => decide (distance target x.key ≤ distance target y.key)))).2 hk
+  refine ((h1.and h2).filter Slot.hasAddr).imp_of_mem ?_
+  intro s t hs ht ⟨hle, hd⟩
+  obtain ⟨p, rfl⟩ := real_of_hasAddr (List.mem_filter.1 hs).2
+  obtain ⟨q, rfl⟩ := real_of_hasAddr (List.mem_filter.1 ht).2
+  simp only [decide_eq_true_eq] at hle
+  have hne : distance target p.key ≠ distance target q.key := by
+    intro e
+    exact hd p q rfl rfl (Nat.xor_right_injective e)
+  exact Nat.lt_of_le_of_ne hle hne
+
+theorem perm_flatMap_of {α β} (l : List α) (f g : α → List β) (h : ∀ a ∈ l, (f a).Perm (g a)) :
+    (l.flatMap f).Perm (l.flatMap g) := by
+  induction l with
+  | nil => exact List.Perm.refl _
+  | cons a l ih =>
+    simp only [List.flatMap_cons]
+    exact (h a (List.mem_cons_self ..)).append (ih fun x hx => h x (List.mem_cons_of_mem _ hx))
+
+theorem flatMap_range_getD (l : List Bucket) (g : Bucket → List Slot) :
+    (List.range l.length).flatMap (fun i => g (l.getD i [])) = l.flatMap g := by
+  have : (List.range l.length).map (fun i => l.getD i []) = l := by
+    apply List.ext_getElem
+    · simp
+    · intro i h1 h2
+      simp [List.getD_eq_getElem?_getD, List.getElem?_eq_getElem h2]
+  rw [← List.flatMap_map, this]
+
+/-- The stored nodes that have at least one known address. -/
+def addressed (t : Table) : List Slot := t.buckets.flatMap (fun b => b.filter Slot.hasAddr)
+
+/-- Everything `closest` would return without a limit. -/
+def closestAll (nb : Nat) (t : Table) (target : Nat) : List Slot :=
+  (visited nb (distance t.localKey target)).flatMap (fun i => closestIter target (t.buckets.getD i []))
+
+theorem closestAll_sorted {K nb : Nat} {t : Table} (h : TInv K nb t) (target : Nat) :
+    (closestAll nb t target).Pairwise (Closer target) := by
+  unfold closestAll
+  rw [List.pairwise_flatMap]
+  refine ⟨fun i _ => closestIter_sorted target (h.2 i).keys, ?_⟩
+  refine (visited_pairwise nb _).imp ?_
+  intro i j hij x hx y hy
+  obtain ⟨hxm, hxa⟩ := mem_closestIter.1 hx
+  obtain ⟨hym, hya⟩ := mem_closestIter.1 hy
+  obtain ⟨p, rfl⟩ := real_of_hasAddr hxa
+  obtain ⟨q, rfl⟩ := real_of_hasAddr hya
+  have hp := (h.2 i).place p hxm
+  have hq := (h.2 j).place q hym
+  have := xor_lt_of_before hp hq hij
+  unfold distance at this
+  rw [xor_swap, xor_swap] at this
+  exact this
+
+theorem closestAll_perm {K nb : Nat} {t : Table} (h : TInv K nb t) (hnb : 0 < nb) {target : Nat}
+    (hd : distance t.localKey target < 2 ^ nb) : (closestAll nb t target).Perm (addressed t) := by
+  unfold closestAll addressed
+  refine ((visited_perm hnb hd).flatMap_right _).trans ?_
+  refine (perm_flatMap_of _ _ (fun i => (t.buckets.getD i []).filter Slot.hasAddr)
+    (fun i _ => closestIter_perm target _)).trans ?_
+  rw [← h.1, flatMap_range_getD t.buckets (fun b => b.filter Slot.hasAddr)]
+
+theorem closest_eq_take (nb : Nat) (t : Table) (target limit : Nat) :
+    t.closest nb target limit = (closestAll nb t target).take limit := rfl
+
+/-- `closest` = the `limit` closest addressed nodes, strictly sorted. -/
+theorem closest_spec {K nb : Nat} {t : Table} (h : TInv K nb t) (hnb : 0 < nb) {target : Nat}
+    (hd : distance t.localKey target < 2 ^ nb) (limit : Nat) :
+    (t.closest nb target limit).Pairwise (Closer target) ∧
+    (∀ s ∈ t.closest nb target limit, s ∈ addressed t) ∧
+    (t.closest nb target limit).length = min limit (addressed t).length ∧
+    (∀ s ∈ addressed t, s ∉ t.closest nb target limit →
+      ∀ r ∈ t.closest nb target limit, Closer target r s) := by
+  have hs := closestAll_sorted h target
+  have hp := closestAll_perm h hnb hd
+  rw [closest_eq_take]
+  refine ⟨hs.sublist (List.take_sublist _ _), ?_, ?_, ?_⟩
+  · intro s hs'
+    exact hp.mem_iff.1 (List.mem_of_mem_take hs')
+  · rw [List.length_take, hp.length_eq]
+  · intro s hsa hnot r hr
+    have hsl : s ∈ closestAll nb t target := hp.mem_iff.2 hsa
+    rw [← List.take_append_drop limit (closestAll nb t target)] at hsl hs
+    rcases List.mem_append.1 hsl with h1 | h1
+    · exact absurd h1 hnot
+    · exact (List.pairwise_append.1 hs).2.2 r hr s h1
+
+
 end Litep2pVerif.Kad.Table
